@@ -12,6 +12,8 @@ import TnVerif.Model.Anova
 import TnVerif.Model.Dual
 import TnVerif.Model.Ortho
 import TnVerif.Model.Round
+import TnVerif.Model.RoundTT
+import TnVerif.Generated
 import TnVerif.Model.Maxvol
 import TnVerif.Model.TTMatrix
 /-
@@ -204,6 +206,23 @@ def showTensor (t : Tensor Q) : String :=
 def showNats (l : List Nat) : String := s!"{l.length}" ++ String.join (l.map fun n => s!" {n}")
 def showQs (l : List Q) : String := s!"{l.length}" ++ String.join (l.map fun q => " " ++ showQ q)
 
+
+/-! round_tt sweep over plain rationals (the order is needed for the rank selection) -/
+def modeRat (m : TMode Q) : Mode Rat :=
+  let μ := m.toMode
+  { rl := μ.rl, rr := μ.rr, n := μ.n, G := fun i a b => (μ.G i a b).v }
+
+def tabMode (m : Mode Rat) : TMode Q :=
+  let arr : Array Rat := Array.ofFn (n := m.rl * m.n * m.rr) fun t =>
+    m.G ((t.val / m.rr) % m.n) (t.val / (m.rr * m.n)) (t.val % m.rr)
+  { core := .tt m.rl m.n m.rr (fun a j b => ⟨if a < m.rl ∧ j < m.n ∧ b < m.rr then arr.getD ((a * m.n + j) * m.rr + b) 0 else 0, 0⟩),
+    U := none }
+
+/-- zero threshold of `truncated_svd`, re-extracted from round.py on every run (pinned by C04.constants_from_source) -/
+def zeroThr : Rat :=
+  let e := TN.Generated.floats_round_truncated_svd.getD 1 (0, 1)
+  mkRat e.1 e.2
+
 /-! commands -/
 def run (cmd : String) : PM String := do
   match cmd with
@@ -318,6 +337,28 @@ def run (cmd : String) : PM String := do
         return "ok " ++ showTensor ((t2.atPair (leftOrthPair qm rm) mu).memo)
       else
         return "ok " ++ showTensor ((t2.atPair (rightOrthPair qm rm) (mu - 1)).memo)
+  | "round_sweep" => do
+      let eps ← pQ
+      let nsteps ← pNat
+      let mut answers : Array (SVDAns Rat × Nat) := #[]
+      for _ in [0:nsteps] do
+        let rmax ← pNat
+        let u ← pMat
+        let n ← pNat
+        let sv ← pArr n
+        let s ← pNat; let r1 ← pNat
+        let vh ← pArr (n * s * r1)
+        let A : SVDAns Rat := { n := n, U := fun a l => (u.f a l).v, S := fun l => (sv.getD l 0).v,
+                                Vh := fun l i b => if l < n ∧ i < s ∧ b < r1 then (vh.getD ((l * s + i) * r1 + b) 0).v else 0 }
+        answers := answers.push (A, rmax)
+      let t ← pTensor
+      let rev := (t.map modeRat).reverse
+      match rev with
+      | [] => return "err empty"
+      | cur :: rest =>
+        let d2 := budget2 eps.v cur rest.length
+        let out := (sweepRev zeroThr d2 rev answers.toList).reverse
+        return "ok " ++ showTensor (out.map tabMode)
   | "rank_select" => do
       let n ← pNat
       let a ← pArr n
